@@ -31,3 +31,14 @@ package sm3
 //@ ensures digest: forall(i, 0, 32, result[len(in) + i] == digestbyte(hs(sm3), i))
 //@ returns_if cap(in) - len(in) >= 32 : in[0:len(in)+32]
 //@ assigns in[len(in):cap(in)]
+
+// ---- concrete contracts (bit-vector mode), against the standard's compression function ----
+// sm3_cf and sm3_iv are the definitions of GB/T 32905 in /verif/spec/sm3_bv.smt2.
+//@ define cat8(h) = cat(h[0], h[1], h[2], h[3], h[4], h[5], h[6], h[7])
+//@ define blk64(m) = cat(m[0], m[1], m[2], m[3], m[4], m[5], m[6], m[7], m[8], m[9], m[10], m[11], m[12], m[13], m[14], m[15], m[16], m[17], m[18], m[19], m[20], m[21], m[22], m[23], m[24], m[25], m[26], m[27], m[28], m[29], m[30], m[31], m[32], m[33], m[34], m[35], m[36], m[37], m[38], m[39], m[40], m[41], m[42], m[43], m[44], m[45], m[46], m[47], m[48], m[49], m[50], m[51], m[52], m[53], m[54], m[55], m[56], m[57], m[58], m[59], m[60], m[61], m[62], m[63])
+
+//@ func (*sm3.SM3).cf
+//@ mode bv
+//@ requires len: len(msg) >= 64
+//@ ensures cf: cat8(sm3.h) == sm3_cf(old(cat8(sm3.h)), blk64(msg))
+//@ assigns sm3.h
